@@ -1,5 +1,137 @@
 import Cellml.Basic.Sexp
-/-! Channel C08 of the model driver (stub: not built yet). -/
+import Cellml.Model.State
+
+/-! Channel C08: one history per request.
+    `(C08 light|deep from check "model-cmeta-id" (ops op…))` → `((outcome result snapshot) …)`, one entry per call;
+    snapshots from call `check` on. In `deep` mode both graph queries are performed after every call from index
+    `from` on (and once before it), as the harness does on the implementation. -/
 namespace C08
-def handle (_args : List Sexp) : Sexp := .atom "not-implemented"
+open Sexp Model
+
+def ofOpt {α} (f : α → Sexp) : Option α → Sexp
+  | some x => f x
+  | none => .atom "none"
+
+def ofNode : Node → Sexp
+  | .var v => .list [.atom "v", ofNat v]
+  | .deriv s t => .list [.atom "d", ofNat s, ofNat t]
+
+def ofVType : VType → Sexp
+  | .state => .atom "STATE" | .free => .atom "FREE" | .parameter => .atom "PARAMETER" | .computed => .atom "COMPUTED"
+
+def ofGraph : Except GErr Graph → Sexp
+  | .ok g => .list [.atom "ok",
+      .list (g.nodes.map fun n => .list [ofNode n.node, ofOpt ofVType n.vtype, ofOpt (fun e => ofNat e.tok) n.eqn]),
+      .list (g.edges.map fun (a, b) => .list [ofNode a, ofNode b])]
+  | .error .duplicate => .list [.atom "err", .atom "AssertionError"]
+  | .error .lhs => .list [.atom "err", .atom "AttributeError"]
+  | .error (.badRef hv hd) =>
+      .list ([.atom "err"] ++ (if hv then [.atom "AssertionError"] else []) ++ (if hd then [.atom "AttributeError"] else []))
+
+def ofOutcome : Outcome → Sexp
+  | .ok => .atom "ok"
+  | .raised .valueError => .list [.atom "err", .atom "ValueError"]
+  | .raised .keyError => .list [.atom "err", .atom "KeyError"]
+  | .raised (.graphError _) => .list [.atom "err", .atom "GraphError"]
+  | .raised .notInModel => .list [.atom "err", .atom "NotInModel"]
+  | .raised .cmetaFuel => .list [.atom "err", .atom "CmetaFuel"]
+
+def node? : Sexp → Option Node
+  | .list [.atom "v", i] => do some (.var (← nat? i))
+  | .list [.atom "d", s, t] => do some (.deriv (← nat? s) (← nat? t))
+  | _ => none
+
+def lhs? : Sexp → Option Lhs
+  | .list [.atom "var", i] => do some (.var (← nat? i))
+  | .list [.atom "deriv", s, t, o] => do some (.deriv (← nat? s) (← nat? t) (← nat? o))
+  | .list [.atom "other"] => some .other
+  | _ => none
+
+def optStr? : Sexp → Option (Option String)
+  | .atom "none" => some none
+  | .str s => some (some s)
+  | _ => none
+
+def optRat? : Sexp → Option (Option Rat)
+  | .atom "none" => some none
+  | e => (rat? e).map some
+
+/-- the equations seen so far in this history, by token (`remove_equation` is given an equation, the wire a token) -/
+abbrev Table := List (Nat × Eqn)
+
+def op? (tbl : Table) : Sexp → Option (Op × Table)
+  | .list [.atom "addVar", .str n, c, i] => do some (.addVariable n (← optStr? c) (← optRat? i), tbl)
+  | .list [.atom "rmVar", v] => do some (.removeVariable (← nat? v), tbl)
+  | .list [.atom "cmeta", v] => do some (.addCmetaId (← nat? v), tbl)
+  | .list [.atom "getDef", v] => do some (.qDefinition (← nat? v), tbl)
+  | .list [.atom "xfer", a, b] => do some (.transferCmetaId (← nat? a) (← nat? b), tbl)
+  | .list [.atom "addEq", t, l, .list (.atom "refs" :: rs), .list (.atom "numrefs" :: ns), b] => do
+      let e : Eqn := ⟨← nat? t, ← lhs? l, ← rs.mapM node?, ← ns.mapM node?, b == .atom "true"⟩
+      some (.addEquation e, (e.tok, e) :: tbl)
+  | .list [.atom "rmEq", t] => do
+      let k ← nat? t
+      some (.removeEquation ((tbl.lookup k).getD ⟨k, .other, [], [], false⟩), tbl)
+  | .list [.atom "quantity"] => some (.createQuantity, tbl)
+  | .list [.atom "graph"] => some (.qGraph, tbl)
+  | .list [.atom "graphNum"] => some (.qGraphNum, tbl)
+  | .list [.atom "states"] => some (.qStates, tbl)
+  | .list [.atom "free"] => some (.qFree, tbl)
+  | _ => none
+
+def snapshot (s : MState) (deep : Bool) : Sexp :=
+  let vars := s.live.map fun i =>
+    match s.heap[i]? with
+    | some v => .list [ofNat i, .str v.name, ofOpt .str v.cmeta, ofOpt ofRat v.init]
+    | none => .list [ofNat i]
+  let defs := s.live.map fun i => .list [ofNat i, ofOpt (fun e => ofNat e.tok) (getDefinition s i)]
+  let types := (List.range s.heap.length).map fun i => .list [ofNat i, ofOpt ofVType (typeOf s i)]
+  let base := [
+    .list (.atom "vars" :: vars),
+    .list (.atom "eqs" :: s.equations.map (fun e => ofNat e.tok)),
+    .list (.atom "defs" :: defs),
+    .list (.atom "states" :: (getStateVariables s).map ofNat),
+    .list (.atom "states_unsorted" :: (stateKeys s).map ofNat),
+    .list [.atom "free", ofOpt ofNat (getFreeVariable s)],
+    .list (.atom "cmeta" :: s.cmetaMap.map (fun (c, i) => .list [.str c, ofNat i])),
+    .list (.atom "types" :: types)]
+  let graphs := if deep then
+      [.list [.atom "graph", ofGraph (queryGraph s).2], .list [.atom "graphNum", ofGraph (queryGraphNum s).2]]
+    else []
+  .list (base ++ graphs)
+
+/-- what the harness does to the implementation when it takes a deep snapshot: both graph properties are read -/
+def perturb (s : MState) : MState := (queryGraphNum (queryGraph s).1).1
+
+def result (s : MState) (op : Op) (before : MState) : Sexp :=
+  match op with
+  | .qGraph => ofGraph (queryGraph before).2
+  | .qGraphNum => ofGraph (queryGraphNum before).2
+  | .qStates => .list ((getStateVariables s).map ofNat)
+  | .qFree => ofOpt ofNat (getFreeVariable s)
+  | .qDefinition v => ofOpt (fun e => ofNat e.tok) (getDefinition s v)
+  | _ => .atom "none"
+
+def runOps (deep : Bool) (first check : Nat) : Nat → MState → Table → List Sexp → List Sexp → List Sexp
+  | _, _, _, [], acc => acc.reverse
+  | i, s, tbl, o :: os, acc =>
+    let s := if deep && (i == first || (i == check && check < first)) then perturb s else s
+    if o == .list [.atom "skip"] then
+      runOps deep first check (i + 1) s tbl os (.list [.atom "skip", .atom "none", .atom "none"] :: acc)
+    else match op? tbl o with
+    | none => runOps deep first check (i + 1) s tbl os (.list [.atom "bad-op", .atom "none", .atom "none"] :: acc)
+    | some (op, tbl') =>
+      let (s1, out) := step s op
+      let res := result s1 op s
+      let s2 := if deep && (i ≥ first || i ≥ check) then perturb s1 else s1
+      let snap := if i ≥ check then snapshot s2 deep else .atom "none"
+      runOps deep first check (i + 1) s2 tbl' os (.list [ofOutcome out, res, snap] :: acc)
+
+def handle (args : List Sexp) : Sexp :=
+  match args with
+  | [.atom mode, first, check, cm, .list (.atom "ops" :: ops)] =>
+      match nat? first, nat? check, optStr? cm with
+      | some f, some k, some c => .list (runOps (mode == "deep") f k 0 (init c) [] ops [])
+      | _, _, _ => .atom "bad-request"
+  | _ => .atom "bad-request"
+
 end C08
